@@ -1,6 +1,7 @@
 (* C12 -- the hand model of the predicate-variable evaluation meets the Spec ("once per candidate binding, with
-   exactly the values of the written arguments, truth = bool of the call") exactly when no open variable is
-   shared between two written arguments; a computed witness shows what happens otherwise (C01-d). *)
+   exactly the values of the written arguments, truth = bool of the call") for every list of written arguments;
+   a computed witness shows that the definition before 3f7e74b (independent evaluation + product) did not when two
+   arguments share an open variable (finding C01-d, repaired). *)
 From Coq Require Import List ZArith Bool Lia.
 From Krrood Require Import Eql.PredIdioms Eql.PredSpec Eql.PredCase Eql.PredEval Eql.PredProofs.
 Import ListNotations.
@@ -116,6 +117,29 @@ Proof.
   rewrite IH by assumption. rewrite filter_id by assumption. reflexivity.
 Qed.
 
+Lemma filter_filter_absorb (p q : Z -> bool) (l : list Z) :
+  (forall z, p z = true -> q z = true) -> filter p (filter q l) = filter p l.
+Proof.
+  intros H. induction l as [|a l IH]; simpl; [reflexivity|].
+  destruct (q a) eqn:Eq; simpl; [rewrite IH; reflexivity|].
+  destruct (p a) eqn:Ep; [rewrite (H a Ep) in Eq; discriminate | exact IH].
+Qed.
+
+Lemma filter_comm (p q : Z -> bool) (l : list Z) : filter p (filter q l) = filter q (filter p l).
+Proof.
+  induction l as [|a l IH]; simpl; [reflexivity|].
+  destruct (q a) eqn:Eq, (p a) eqn:Ep; simpl; rewrite ?Eq, ?Ep, IH; reflexivity.
+Qed.
+
+Lemma dedup_filter (p : Z -> bool) (l : list Z) : dedup (filter p l) = filter p (dedup l).
+Proof.
+  induction l as [|a l IH]; simpl; [reflexivity|].
+  destruct (p a) eqn:Ep; simpl.
+  - rewrite IH. rewrite filter_comm. reflexivity.
+  - rewrite IH. symmetry. apply filter_filter_absorb.
+    intros z Hz. destruct (Z.eqb z a) eqn:E; [|reflexivity]. apply Z.eqb_eq in E. subst. congruence.
+Qed.
+
 (* ---------------------------------------------------------------- the evaluation *)
 Section Once.
   Variable dom : Z -> list Z.
@@ -179,57 +203,71 @@ Section Once.
   Definition fin (acc : bindings) (cp : list (Z * Z)) (names : list Z) (combo : list (bindings * Z)) :=
     (fold_left (fun acc d => dict_update acc (fst d)) combo acc, cp ++ combine names (map snd combo)).
 
-  Lemma main : forall kwargs b m acc cp,
-    NoDup (map fst (b ++ m)) ->
-    NoDup (open_vars b kwargs) ->
-    (forall x, In x (open_vars b kwargs) -> ~ In x (map fst m)) ->
-    (forall n, NoDup (map fst (b ++ m ++ n)) -> dict_update acc (b ++ n) = b ++ m ++ n) ->
-    (kwargs = [] -> acc = b ++ m) ->
-    map (fin acc cp (map fst kwargs)) (product (map (fun ka => eval_arg dom attr (snd ka) b) kwargs)) =
-    map (fun rho => (rho, cp ++ call_of attr kwargs rho)) (cands dom (b ++ m) (open_vars b kwargs)).
+  (* binding x removes it from the open variables of the remaining arguments *)
+  Lemma open_vars_bind b x v rest : lookup b x = None ->
+    open_vars (b ++ [(x, v)]) rest = filter (fun z => negb (Z.eqb z x)) (open_vars b rest).
   Proof.
-    induction kwargs as [|[k a] rest IH]; intros b m acc cp Hnd Hov Hdisj Hacc Hnil.
+    intros Hx. induction rest as [|[k a] rest IH]; [reflexivity|].
+    change (open_vars (b ++ [(x, v)]) ((k, a) :: rest)) with (ov (b ++ [(x, v)]) a ++ open_vars (b ++ [(x, v)]) rest).
+    rewrite open_vars_cons, filter_app, IH. f_equal.
+    unfold ov. destruct (arg_var a) as [y|]; [|reflexivity].
+    rewrite !lookup_get, get_app. rewrite lookup_get in Hx.
+    destruct (dict_get b y) eqn:Ey; [reflexivity|]. simpl.
+    destruct (Z.eqb x y) eqn:E.
+    - apply Z.eqb_eq in E. subst. simpl. rewrite Z.eqb_refl. reflexivity.
+    - simpl. rewrite Z.eqb_sym, E. reflexivity.
+  Qed.
+
+  Lemma update_self_ext (cur n : assignment) : NoDup (map fst (cur ++ n)) -> dict_update cur (cur ++ n) = cur ++ n.
+  Proof.
+    intros H. pose proof (update_ext cur [] n) as U. simpl in U. rewrite app_nil_r in U. apply U. exact H.
+  Qed.
+
+  Lemma main : forall kwargs (cur : assignment) (acc : bindings) cp,
+    NoDup (map fst cur) ->
+    (forall n : assignment, NoDup (map fst (cur ++ n)) -> dict_update acc (cur ++ n) = cur ++ n) ->
+    (kwargs = [] -> acc = cur) ->
+    map (fin acc cp (map fst kwargs)) (combinations dom attr (map snd kwargs) cur) =
+    map (fun rho => (rho, cp ++ call_of attr kwargs rho)) (cands dom cur (dedup (open_vars cur kwargs))).
+  Proof.
+    induction kwargs as [|[k a] rest IH]; intros cur acc cp Hnd Hacc Hnil.
     - simpl. unfold fin. simpl. rewrite (Hnil eq_refl). reflexivity.
-    - rewrite open_vars_cons in *. simpl map. simpl product. rewrite map_flat_map.
+    - rewrite open_vars_cons. simpl map. simpl combinations. rewrite map_flat_map.
       rewrite eval_arg_spec, flat_map_map.
-      assert (Hstep : forall c : bindings * Z,
-                 map (fin acc cp (k :: map fst rest)) (map (cons c) (product (map (fun ka => eval_arg dom attr (snd ka) b) rest))) =
+      assert (Hstep : forall (c : bindings * Z),
+                 map (fin acc cp (k :: map fst rest)) (map (cons c) (combinations dom attr (map snd rest) (fst c))) =
                  map (fin (dict_update acc (fst c)) (cp ++ [(k, snd c)]) (map fst rest))
-                     (product (map (fun ka => eval_arg dom attr (snd ka) b) rest))).
+                     (combinations dom attr (map snd rest) (fst c))).
       { intros c. rewrite map_map. apply map_ext. intros combo. unfold fin. simpl. rewrite <- app_assoc. reflexivity. }
-      destruct (ov b a) as [|x ovr] eqn:Eov.
+      destruct (ov cur a) as [|x ovr] eqn:Eov.
       + (* the argument adds no binding *)
-        simpl app in *. simpl cands at 1. simpl flat_map. rewrite app_nil_r. rewrite Hstep. simpl fst. simpl snd.
-        assert (dict_update acc b = b ++ m) as ->.
-        { pose proof (Hacc [] ) as H0. rewrite !app_nil_r in H0. apply H0. exact Hnd. }
-        rewrite (IH b m (b ++ m) (cp ++ [(k, den attr b a)])); auto.
+        simpl app. simpl cands at 1. simpl flat_map. rewrite app_nil_r. rewrite Hstep. simpl fst. simpl snd.
+        assert (dict_update acc cur = cur) as ->.
+        { pose proof (Hacc []) as H0. rewrite !app_nil_r in H0. apply H0. exact Hnd. }
+        rewrite (IH cur cur (cp ++ [(k, den attr cur a)])); auto.
         * apply map_ext_in. intros rho Hin. apply cands_ext in Hin. destruct Hin as (e & ->).
-          rewrite <- (app_assoc cp). simpl. rewrite <- (app_assoc b m e). rewrite den_stable by assumption. reflexivity.
-        * intros n Hn. apply update_ext. exact Hn.
-      + (* the argument enumerates its open variable x *)
+          rewrite <- (app_assoc cp). simpl. rewrite den_stable by assumption. reflexivity.
+        * intros n Hn. apply update_self_ext. exact Hn.
+      + (* the argument enumerates its open variable x; the remaining arguments see it bound *)
         assert (ovr = []) as ->.
-        { unfold ov in Eov. destruct (arg_var a); [destruct (lookup b z)|]; congruence. }
-        assert (Hax : arg_var a = Some x /\ lookup b x = None).
-        { unfold ov in Eov. destruct (arg_var a) as [y|]; [destruct (lookup b y) eqn:El|]; try discriminate.
+        { unfold ov in Eov. destruct (arg_var a); [destruct (lookup cur z)|]; congruence. }
+        assert (Hax : arg_var a = Some x /\ lookup cur x = None).
+        { unfold ov in Eov. destruct (arg_var a) as [y|]; [destruct (lookup cur y) eqn:El|]; try discriminate.
           injection Eov as ->. auto. }
         destruct Hax as (Hax & Hbx).
-        rewrite cands_single, flat_map_map. simpl app. simpl cands. rewrite map_flat_map.
+        rewrite cands_single, flat_map_map. simpl app. simpl dedup. simpl cands. rewrite map_flat_map.
         apply flat_map_ext. intros v. rewrite Hstep. simpl fst. simpl snd.
-        simpl in Hov. inversion Hov as [|? ? Hxni Hov']; subst.
-        assert (Hxm : ~ In x (map fst m)) by (apply Hdisj; simpl; auto).
-        assert (Hxb : ~ In x (map fst b)) by (apply get_None_notin; rewrite <- lookup_get; exact Hbx).
-        assert (Hnd' : NoDup (map fst (b ++ m ++ [(x, v)]))).
-        { rewrite app_assoc, map_app. simpl. apply nodup_snoc; auto. rewrite map_app, in_app_iff. tauto. }
+        assert (Hxb : ~ In x (map fst cur)) by (apply get_None_notin; rewrite <- lookup_get; exact Hbx).
+        assert (Hnd' : NoDup (map fst (cur ++ [(x, v)]))).
+        { rewrite map_app. simpl. apply nodup_snoc; auto. }
         rewrite (Hacc [(x, v)] Hnd').
-        rewrite (IH b (m ++ [(x, v)]) (b ++ m ++ [(x, v)]) (cp ++ [(k, den attr (b ++ [(x, v)]) a)])); auto.
-        * rewrite <- (app_assoc b m [(x, v)]). apply map_ext_in. intros rho Hin.
-          apply cands_ext in Hin. destruct Hin as (e & ->).
+        rewrite (IH (cur ++ [(x, v)]) (cur ++ [(x, v)]) (cp ++ [(k, den attr (cur ++ [(x, v)]) a)])); auto.
+        * rewrite (open_vars_bind cur x v rest Hbx), dedup_filter.
+          apply map_ext_in. intros rho Hin. apply cands_ext in Hin. destruct Hin as (e & ->).
           rewrite <- (app_assoc cp). simpl.
-          rewrite (den_var ((b ++ m ++ [(x, v)]) ++ e) (b ++ [(x, v)]) a x Hax); [reflexivity|].
-          rewrite !lookup_get, !get_app.
-          rewrite (notin_get_None b x Hxb), (notin_get_None m x Hxm). simpl. rewrite Z.eqb_refl. reflexivity.
-        * intros y Hy. rewrite map_app, in_app_iff. simpl. intros [H|[<-|[]]]; [apply (Hdisj y); simpl; auto | tauto].
-        * intros n Hn. apply (update_ext b (m ++ [(x, v)]) n Hn).
+          rewrite (den_var ((cur ++ [(x, v)]) ++ e) (cur ++ [(x, v)]) a x Hax); [reflexivity|].
+          rewrite !lookup_get, !get_app. rewrite (notin_get_None cur x Hxb). simpl. rewrite Z.eqb_refl. reflexivity.
+        * intros n Hn. apply update_self_ext. exact Hn.
   Qed.
 
   Section Body.
@@ -238,26 +276,27 @@ Section Once.
     Variable truthy : R -> bool.
 
     Theorem once_per_binding : forall kwargs b,
-      kwargs <> [] -> NoDup (map fst b) -> NoDup (open_vars b kwargs) ->
+      kwargs <> [] -> NoDup (map fst b) ->
       pred_eval dom attr body truthy kwargs b = spec_eval dom attr body truthy kwargs b.
     Proof.
-      intros kwargs b Hne Hb Hov. unfold pred_eval, spec_eval. rewrite dedup_nodup by assumption.
-      pose proof (main kwargs b [] [] []) as H. rewrite !app_nil_r in H. simpl in H.
+      intros kwargs b Hne Hb. unfold pred_eval, spec_eval.
+      assert (H := main kwargs b [] [] Hb (fun n Hn => update_nil _ Hn) (fun E => match Hne E with end)).
       transitivity (map (fun rc : bindings * list (Z * Z) => (fst rc, snd rc, truthy (body (snd rc))))
-                        (map (fin [] [] (map fst kwargs)) (product (map (fun ka => eval_arg dom attr (snd ka) b) kwargs)))).
+                        (map (fin [] [] (map fst kwargs)) (combinations dom attr (map snd kwargs) b))).
       - rewrite map_map. apply map_ext. intros combo. reflexivity.
-      - rewrite H; auto.
+      - transitivity (map (fun rc : bindings * list (Z * Z) => (fst rc, snd rc, truthy (body (snd rc))))
+                          (map (fun rho : assignment => (rho, [] ++ call_of attr kwargs rho))
+                               (cands dom b (dedup (open_vars b kwargs))))).
+        + f_equal. exact H.
         + rewrite map_map. reflexivity.
-        + intros n Hn. apply update_nil. exact Hn.
-        + intros ->. congruence.
     Qed.
   End Body.
 End Once.
 
-(* ---------------------------------------------------------------- outside F: a shared open variable (C01-d)
-   pred(p1 = x.a, p2 = x.b) over x in {o0 (a=0,b=1), o1 (a=1,b=0)} with body p1 < p2:
-   the Spec asks for 2 calls and the row o0; the model makes 4 calls (cross product) and yields o0 bound from the
-   last kwarg, plus nothing else here -- so we take a table where the difference shows in the rows too. *)
+(* ---------------------------------------------------------------- regression statement for finding C01-d
+   (repaired by 3f7e74b): with the old definition -- every kwarg evaluated independently under the same sources,
+   itertools.product -- pred(p1 = x.a, p2 = x.b) over x in {o0 (a=0,b=1), o1 (a=1,b=2)} with body p1 < p2 made
+   4 calls for 2 candidate bindings and bound x from the last kwarg; the current definition meets the Spec there. *)
 Definition kx_dom (x : Z) : list Z := if Z.eqb x 1 then [100; 101] else [].
 Definition kx_attr (f v : Z) : Z :=
   if Z.eqb f 0 then (if Z.eqb v 100 then 0 else 1) else (if Z.eqb v 100 then 1 else 2).
@@ -265,15 +304,16 @@ Definition kx_body (c : list (Z * Z)) : bool :=
   match c with [(_, u); (_, w)] => Z.ltb u w | _ => false end.
 Definition kx_kwargs : list (Z * arg) := [(1, AAttr (AVar 1) 0); (2, AAttr (AVar 1) 1)].
 
-Lemma predshare_refuted :
+Lemma old_product_refuted :
   exists dom attr (body : list (Z * Z) -> bool) kwargs b,
     kwargs <> [] /\ NoDup (map fst b) /\
-    length (pred_eval dom attr body (fun r => r) kwargs b) <> length (spec_eval dom attr body (fun r => r) kwargs b) /\
-    map (fun r => fst (fst r)) (filter (fun r => snd r) (pred_eval dom attr body (fun r => r) kwargs b)) <>
-    map (fun r => fst (fst r)) (filter (fun r => snd r) (spec_eval dom attr body (fun r => r) kwargs b)).
+    length (pred_eval_product dom attr body (fun r => r) kwargs b) <> length (spec_eval dom attr body (fun r => r) kwargs b) /\
+    map (fun r => fst (fst r)) (filter (fun r => snd r) (pred_eval_product dom attr body (fun r => r) kwargs b)) <>
+    map (fun r => fst (fst r)) (filter (fun r => snd r) (spec_eval dom attr body (fun r => r) kwargs b)) /\
+    pred_eval dom attr body (fun r => r) kwargs b = spec_eval dom attr body (fun r => r) kwargs b.
 Proof.
   exists kx_dom, kx_attr, kx_body, kx_kwargs, []. split; [discriminate|]. split; [constructor|].
-  split; vm_compute; discriminate.
+  split; [vm_compute; discriminate|]. split; [vm_compute; discriminate | reflexivity].
 Qed.
 
 (* ---------------------------------------------------------------- the whole path of a symbolic call:
@@ -299,13 +339,13 @@ Section Whole.
     NoDup params -> call_ok params pos kw -> some_var arg_is_symbolic pos kw = true ->
     exists m, G.symbolic_function_wrapper arg_is_symbolic params pos kw = G.MakeVariable G.DecoratedMethod m /\
       (forall rho p, assoc p (call_of attr m rho) = option_map (den attr rho) (python_bind params pos kw p)) /\
-      (forall b, NoDup (map fst b) -> NoDup (open_vars b m) ->
+      (forall b, NoDup (map fst b) ->
                  pred_eval dom attr body truthy m b = spec_eval dom attr body truthy m b).
   Proof.
     intros params pos kw Hnd Hok Hs. exists (G.merge_args_and_kwargs params pos kw false). split; [|split].
     - rewrite dispatch_function by assumption. rewrite Hs. reflexivity.
     - intros rho p. unfold call_of. rewrite assoc_map_snd, <- dict_get_assoc, merge_get by assumption. reflexivity.
-    - intros b Hb Hov. apply once_per_binding; auto. apply merged_nonempty; assumption.
+    - intros b Hb. apply once_per_binding; auto. apply merged_nonempty; assumption.
   Qed.
 
   Theorem symbolic_call_predicate : forall self ps inst pos kw,
@@ -314,7 +354,7 @@ Section Whole.
       (forall rho p, p <> self ->
          assoc p (call_of attr m rho) = option_map (den attr rho) (python_bind (self :: ps) (inst :: pos) kw p)) /\
       (forall rho, assoc self (call_of attr m rho) = None) /\
-      (forall b, NoDup (map fst b) -> NoDup (open_vars b m) ->
+      (forall b, NoDup (map fst b) ->
                  pred_eval dom attr body truthy m b = spec_eval dom attr body truthy m b).
   Proof.
     intros self ps inst pos kw Hnd Hok Hs. exists (G.merge_args_and_kwargs (self :: ps) pos kw true).
@@ -324,7 +364,7 @@ Section Whole.
     - intros rho p Hp. unfold call_of. rewrite assoc_map_snd, <- dict_get_assoc, Hget.
       destruct (Z.eqb p self) eqn:E; [apply Z.eqb_eq in E; congruence | reflexivity].
     - intros rho. unfold call_of. rewrite assoc_map_snd, <- dict_get_assoc, Hget, Z.eqb_refl. reflexivity.
-    - intros b Hb Hov. apply once_per_binding; auto.
+    - intros b Hb. apply once_per_binding; auto.
       inversion Hnd; subst. destruct (call_ok_self _ _ _ _ _ Hok) as (Hok' & _).
       change (G.merge_args_and_kwargs (self :: ps) pos kw true) with (G.merge_args_and_kwargs ps pos kw false).
       apply merged_nonempty; assumption.
